@@ -49,6 +49,38 @@ PLANS = {
     },
 }
 
+MISC = ["NgramCase", "SkipgramCase", "LZCase", "BPECase", "HistogramCase", "KDECase", "DistributionCase", "InfoWeightCase",
+        "RowDenoiseCase", "CFCCase", "SlidingWindowCase", "TreeCase", "EdgeListCase", "CategoricalCase"]
+
+PLANS["C13"] = {
+    "quick": [
+        {"name": "H-interp-all", "layer": "H", "mode": "interp", "runs": 9000, "workers": 5, "budget_s": 170},
+        {"name": "H-interp-cancel", "layer": "H", "mode": "interp", "variant": "cancel", "runs": 5000, "workers": 3, "budget_s": 170,
+         "params": {"cancel": True}},
+        {"name": "H-interp-ot", "layer": "H", "mode": "interp", "variant": "ot", "runs": 4000, "workers": 3, "budget_s": 170,
+         "params": {"families": ["WassersteinCase"]}},
+        {"name": "H-jit-ot", "layer": "H", "mode": "jit", "variant": "ot", "runs": 3000, "workers": 2, "budget_s": 170,
+         "params": {"families": ["WassersteinCase"], "cancel": True}},
+        {"name": "H-jit-misc", "layer": "H", "mode": "jit", "variant": "misc", "runs": 3000, "workers": 1, "budget_s": 170,
+         "params": {"families": MISC}},
+        {"name": "H-jit-cooc", "layer": "H", "mode": "jit", "variant": "cooc", "runs": 1500, "workers": 1, "budget_s": 170,
+         "params": {"families": ["CoocCase"], "cooc_kinds": ["token", "multiset"]}},
+    ],
+    "thorough": [
+        {"name": "H-interp-all", "layer": "H", "mode": "interp", "runs": 200000, "workers": 5, "budget_s": 2600, "params": {"cancel": True}},
+        {"name": "H-interp-nocancel", "layer": "H", "mode": "interp", "variant": "nocancel", "runs": 100000, "workers": 3, "budget_s": 2600,
+         "params": {"cancel": False}},
+        {"name": "H-interp-ot", "layer": "H", "mode": "interp", "variant": "ot", "runs": 100000, "workers": 3, "budget_s": 2600,
+         "params": {"families": ["WassersteinCase"], "cancel": True}},
+        {"name": "H-jit-ot", "layer": "H", "mode": "jit", "variant": "ot", "runs": 80000, "workers": 2, "budget_s": 2600,
+         "params": {"families": ["WassersteinCase"], "cancel": True}},
+        {"name": "H-jit-misc", "layer": "H", "mode": "jit", "variant": "misc", "runs": 60000, "workers": 1, "budget_s": 2600,
+         "params": {"families": MISC, "cancel": True}},
+        {"name": "H-jit-cooc", "layer": "H", "mode": "jit", "variant": "cooc", "runs": 30000, "workers": 2, "budget_s": 2600,
+         "params": {"families": ["CoocCase"], "cooc_kinds": ["token", "multiset", "timed"], "cancel": True}},
+    ],
+}
+
 RULES = {
     "C04": (
         "Each evaluation is one simulated run decided by one seed (sha256(VERIF_SEED/property/layer/index)). "
@@ -64,6 +96,16 @@ RULES = {
     ),
 }
 
+RULES["C13"] = (
+    "Each evaluation is one simulated call history decided by one seed: an estimator family and case (parameters with parameter "
+    "objects, item pool) are drawn, then 3-8 operations from {fit, fit_transform, transform(batch), refit}, each primary call preceded "
+    "by a fault-free rehearsal on a pristine twin and optionally carrying one fault (io errno at the k-th scratch-file operation, "
+    "reader raise/short at item j, invalid item in a later block, cancellation at the n-th traced line). After every call: deep "
+    "snapshots of inputs and parameter objects, temp-directory listing, twin memo, same-seed-same-model. Non-trivial = at least one "
+    "fault actually fired inside a call; distinct = distinct (family, sequence of operation kinds with the fault kind that fired in "
+    "each, set of fired fault kinds)."
+)
+
 COMPONENTS = {
     "C04": {
         "real": ["vectorizers.coo_utils (coo_append, coo_sum_duplicates, merge_sum_duplicates, merge_all_sum_duplicates, coo_increase_mem)",
@@ -75,6 +117,17 @@ COMPONENTS = {
     },
 }
 
+COMPONENTS["C13"] = {
+    "real": ["every estimator's fit / fit_transform / transform (21 estimator classes, SignatureVectorizer excluded: iisignature is not installed)",
+             "preprocessing, block-wise LOT / Sinkhorn fits with their memmap scratch files, generator chunking",
+             "co-occurrence builds (their dask graphs run under the simulated scheduler)"],
+    "stub": ["the file system under the library's scratch directory: tempfile.mkdtemp / numpy.memmap (create, flush, reopen) / os.remove / "
+             "os.rmdir / shutil.rmtree are fault-injecting wrappers (calls from library frames only), tempfile.tempdir is a per-run sandbox",
+             "generator inputs are simulated readers", "dask's threaded scheduler -> dsim.daskseam.SimGet",
+             "the global numpy RNG is reseeded differently before the two fits that must agree"],
+    "modes": "interp = NUMBA_DISABLE_JIT=1; jit = compiled kernels (cancellation can then only land on python-level lines)",
+}
+
 ASSUMPTIONS = {
     "C04": [
         "sampled, not exhaustive: a clean batch is evidence, not proof",
@@ -84,8 +137,24 @@ ASSUMPTIONS = {
     ],
 }
 
+ASSUMPTIONS["C13"] = [
+    "sampled, not exhaustive",
+    "torn / lost / short writes, bit flips, process crash and allocator failure are not injected: the scratch file has no integrity contract",
+    "cancellation is delivered at line granularity, never while an exception is propagating nor inside a finally/except body",
+    "after a fit that raised, the estimator's state is unspecified by the property: the history continues with a new fit",
+    "a clean-up operation that the simulator itself made fail waives the leftover oracle for exactly that path",
+]
+
 # probes that must have fired at least once per tier, otherwise the run is a harness error
 REQUIRED_PROBES = {
+    "C13": {
+        "quick": ["blockwise-fit", "memo-compared", "same-model-checked", "transform-after-faulted-transform", "cancel@line",
+                  "reader:raise", "reader:short", "io:ENOSPC@mkdtemp", "io:ENOSPC@memmap-create", "io:EIO@memmap-flush",
+                  "io:EIO@memmap-open", "data:nan"],
+        "thorough": ["blockwise-fit", "memo-compared", "same-model-checked", "transform-after-faulted-transform", "cancel@line",
+                     "reader:raise", "reader:short", "io:ENOSPC@mkdtemp", "io:ENOSPC@memmap-create", "io:EIO@memmap-flush",
+                     "io:EIO@memmap-open", "data:nan", "io:EACCES@rmtree"],
+    },
     "C04": {
         "quick": ["growth", "depth>=2", "path.merge_all_sum_duplicates", "volume>capacity", "path.coo_increase_mem",
                   "interleaved", "empty-chunk", "transform-larger-than-fit", "est.real-threshold-reached",
